@@ -3505,3 +3505,82 @@ fn accept_one_argument(
 		})?
 	}
 }
+
+/// Verification hooks: give the replay harness access to the private
+/// type fix-up and word alignment rules, without changing them.
+#[cfg(feature = "verif")]
+pub mod verif_hooks
+{
+	use super::*;
+
+	fn location() -> Location
+	{
+		Location {
+			source_filename: String::new(),
+			span: 0..0,
+			line_number: 1,
+			line_offset: 1,
+		}
+	}
+
+	/// Contexts: 0 constant, 1 member, 2 parameter, 3 returned.
+	pub fn fix_type_for_flags(
+		value_type: ValueType,
+		context: usize,
+		is_external: bool,
+	) -> Result<ValueType, Error>
+	{
+		let context = match context
+		{
+			0 => FixContext::Const,
+			1 => FixContext::Member,
+			2 => FixContext::Parameter,
+			_ => FixContext::Returned,
+		};
+		let flags = if is_external
+		{
+			EnumSet::only(DeclarationFlag::External)
+		}
+		else
+		{
+			EnumSet::new()
+		};
+		super::fix_type_for_flags(
+			value_type,
+			context,
+			&flags,
+			&location(),
+			&location(),
+		)
+	}
+
+	/// Align the members of a structure or word with the given types.
+	pub fn align_struct(
+		member_types: Vec<ValueType>,
+		structural_type: ValueType,
+	) -> Result<ValueType, Option<Error>>
+	{
+		let identifier = Identifier {
+			name: String::from("S"),
+			location: location(),
+			resolution_id: 1,
+			is_authoritative: true,
+		};
+		let members: Vec<Member> = member_types
+			.into_iter()
+			.map(|value_type| Member {
+				name: Ok(identifier.clone()),
+				value_type: Ok(value_type),
+				location_of_type: location(),
+			})
+			.collect();
+		let mut typer = Typer::default();
+		typer
+			.align_struct(&identifier, &members, Ok(structural_type))
+			.map_err(|poison| match poison
+			{
+				Poison::Error(error) => Some(error),
+				Poison::Poisoned => None,
+			})
+	}
+}
